@@ -280,6 +280,83 @@ def judgeCn (c : Cn) (obs : String) : String :=
   else if vals.any (fun kv => !(close kv.2 (expected kv.1))) then "fail cumulative-bin-is-dominance-sum"
   else "ok"
 
+/-! multi-step sequences on fractional bins (ns): sum(), normalize twice, normalize / accumulate / normalize, quarter weights -/
+
+structure Ns where
+  c : Ch
+  nc : Nat
+  sel : List Nat
+  bw : Int
+  mode : String
+  n : Nat
+  pixA : List (List Int)
+  pixB : List (List Int)
+
+def parseNs (line : String) : Option Ns :=
+  match splitOn' "|" (words line) with
+  | ["ns", vt, sel, bw, mode, w, h] :: planesW =>
+    match vtInfo vt, ints [bw, w, h], planesW.mapM ints with
+    | some (c, nc), some [bw, w, h], some planes =>
+      if planes.length ≠ 2 * nc ∨ bw < 1 then none else
+      let n := (w * h).toNat
+      some { c := c, nc := nc, sel := selOf sel, bw := bw, mode := mode, n := n, pixA := pixelsOf n (planes.take nc), pixB := pixelsOf n (planes.drop nc) }
+    | _, _, _ => none
+  | _ => none
+
+def nsArgs (o : Ns) : FillArgs := { c := o.c, bw := o.bw, sel := o.sel, applymask := false, setlimits := false, lower := [], upper := [] }
+
+/-- the sequence in exact arithmetic, from a fill function (model: `fill`; Spec: `specFill` with the truncating quotient) -/
+def nsRun (o : Ns) (fillA : Hist) (accB : HistQ → HistQ) : HistQ :=
+  let h := ofCounts fillA
+  match o.mode with
+  | "s" => normalizeQ h
+  | "nn" => normalizeQ (normalizeQ h)
+  | "na" => normalizeQ (accB (normalizeQ h))
+  | "qs" => scaleQ (1 / 4) h
+  | _ => normalizeQ (scaleQ (1 / 4) h)       -- qn
+
+def q20R (r : Rat) : Int := (r * 1048576 + (1 : Rat) / 2).floor
+def nsUnit (o : Ns) (r : Rat) : Int := if o.mode == "qs" then (r * 4).floor else q20R r
+
+def sortQ (h : HistQ) : HistQ := sortW h
+
+def showNs (o : Ns) (h : HistQ) : String :=
+  "S=" ++ toString (nsUnit o (sumQ h)) ++ " | " ++ " ".intercalate ((sortQ h).map fun kv => showKey kv.1 ++ ":" ++ toString (nsUnit o kv.2))
+
+def modelNs (o : Ns) : String :=
+  let a := nsArgs o
+  showNs o (nsRun o (fill a [] (o.pixA.map fun p => (p, true))) (fun h => fillQ a h (o.pixB.map fun p => (p, true))))
+
+def specFillQ (a : FillArgs) (h : HistQ) (pixels : List (List Int)) : HistQ :=
+  pixels.foldl (fun h p => addQ h (specKey false a p) 1) h
+
+def judgeNs (o : Ns) (obs : String) : String :=
+  match splitOn' "|" (words obs) with
+  | [[sTok], binsW] =>
+    if !sTok.startsWith "S=" then "fail shape" else
+    let parts := binsW.map fun w => w.splitOn ":"
+    let nonfinite := (sTok :: binsW).any fun w => w.endsWith "inf" || w.endsWith "nan"
+    if nonfinite then "fail normalize-sums-to-one(non-finite-bins)" else
+    let vals := parts.filterMap fun p => match p with
+      | [k, v] => match parseKey k, v.toInt? with | some k, some v => some (k, v) | _, _ => none
+      | _ => none
+    match (sTok.drop 2).toString.toInt? with
+    | none => "fail not-a-number"
+    | some S =>
+      if vals.length ≠ parts.length then "fail not-a-number" else
+      let a := nsArgs o
+      let spec := nsRun o (specFill false a [] (o.pixA.map fun p => (p, true))) (fun h => specFillQ a h o.pixB)
+      let exact := o.mode == "qs"
+      let tol : Int := if exact then 0 else (vals.length : Int) + 2
+      let total : Int := (vals.map (·.2)).foldl (· + ·) 0
+      if (S - total).natAbs > tol.toNat then "fail sum()-equals-the-sum-of-the-bins"
+      else if !exact && !vals.isEmpty && (total - 1048576).natAbs > tol.toNat then "fail normalize-sums-to-one"
+      else if sortHist (vals.map fun kv => (kv.1, 0)) ≠ sortHist (spec.map fun kv => (kv.1, 0)) then "fail bin-exactness(keys)"
+      else if vals.any (fun kv => (spec.filter (·.1 == kv.1)).any (fun s => decide ((nsUnit o s.2 - kv.2).natAbs > (if exact then 0 else 2)))) then
+        (if o.mode == "nn" then "fail normalize-idempotent" else "fail normalize-bin-is-weight-over-total")
+      else "ok"
+  | _ => "fail shape"
+
 structure Sv where
   size1 : Nat        -- 0: no first fill
   size2 : Nat
@@ -334,6 +411,7 @@ def model (line : String) : String :=
   | some "fh" | some "hk" => match parseFh line with | some o => modelFh o | none => "bad-op"
   | some "st" => match parseSt line with | some (vt, n, p) => modelSt vt n p | none => "bad-op"
   | some "cn" => match parseCn line with | some c => modelCn c | none => "bad-op"
+  | some "ns" => match parseNs line with | some o => modelNs o | none => "bad-op"
   | some "sv" => match parseSv line with | some o => modelSv o | none => "bad-op"
   | some _ => match parseSimple line with | some o => modelSimple o | none => "bad-op"
   | none => "bad-op"
@@ -344,6 +422,7 @@ def judge (op obs : String) : String :=
   | some "fh" | some "hk" => match parseFh op with | some o => judgeFh o obs | none => "fail bad-op"
   | some "st" => match parseSt op with | some (vt, _, p) => judgeSt vt p obs | none => "fail bad-op"
   | some "cn" => match parseCn op with | some c => judgeCn c obs | none => "fail bad-op"
+  | some "ns" => match parseNs op with | some o => judgeNs o obs | none => "fail bad-op"
   | some "sv" => match parseSv op with | some o => judgeSv o obs | none => "fail bad-op"
   | some _ => match parseSimple op with | some o => judgeSimple o obs | none => "fail bad-op"
   | none => "fail bad-op"
